@@ -2,6 +2,7 @@ import SppModel
 import SppModel.Generated.LoopKernels
 import SppModel.Generated.MomentKernels
 import SppModel.Generated.BlockKernels
+import SppModel.Generated.SigprocCodec
 /-!
 Line-protocol driver for the executable model (`lake env lean --run Driver.lean`).
 One request per line on stdin, one answer per line on stdout.  Unknown or
@@ -218,19 +219,41 @@ def parseKvs : List String → Option (List (Sigproc.Bytes × Sigproc.Val))
 def showKvs (kvs : List (Sigproc.Bytes × Sigproc.Val)) : String :=
   " ".intercalate (kvs.map (fun (k, v) => s!"{hexOf k} {fmtName v.fmt} {showVal v}"))
 
+/-! the translated codec (`Generated.SigprocCodec`, re-translated from `io/sigproc.py` on every run) is evaluated
+on the same request; its outcome is appended as `| gen ok same`, `| gen ok diff` (payload differs from the hand
+model's) or `| gen err <exception>` -/
+def pyOf : Sigproc.Val → CodecPrims.PyVal
+  | .u32 n => .int n
+  | .f64 bs => .dbl bs
+  | .i8 b => .int (if b < 128 then (b : Int) else (b : Int) - 256)
+  | .str s => .str s
+
+def genDict (kvs : List (Sigproc.Bytes × Sigproc.Val)) : CodecPrims.Dict := kvs.map (fun kv => (kv.1, pyOf kv.2))
+
+def genTag {α : Type} (r : Except String α) (same : α → Bool) : String :=
+  match r with
+  | .ok a => if same a then " | gen ok same" else " | gen ok diff"
+  | .error e => s!" | gen err {e}"
+
 def stepC05 (ts : List String) : String :=
   match ts with
   | "enc" :: rest =>
     match parseKvs rest with
-    | some kvs => s!"ok {hexOf (Sigproc.encodeHeader kvs)}"
+    | some kvs =>
+      let hand := Sigproc.encodeHeader kvs
+      s!"ok {hexOf hand}" ++ genTag (Generated.SigprocCodec.encode_header (genDict kvs)) (fun b => b == hand)
     | none => "bad-op"
   | ["parse", h] =>
     match unhex h with
     | none => "bad-op"
     | some bs =>
+      let gen := Generated.SigprocCodec.parse_header bs
       match Sigproc.parseHeader bs with
-      | .ok (kvs, n) => s!"ok {n} {kvs.length} {showKvs kvs}".trimAsciiEnd.toString
-      | .error e => s!"err {e.name}"
+      | .ok (kvs, n) =>
+        s!"ok {n} {kvs.length} {showKvs kvs}".trimAsciiEnd.toString ++
+          genTag gen (fun d => (d.filter (fun kv => CodecPrims.isKey kv.1)) == genDict kvs
+                               && d.lookup (CodecPrims.ascii "hdrlen") == some (.int n))
+      | .error e => s!"err {e.name}" ++ genTag gen (fun _ => false)
   | ["edit", file, key, t, v] =>
     match unhex file, unhex key with
     | some file, some key =>
@@ -240,9 +263,11 @@ def stepC05 (ts : List String) : String :=
       match ev with
       | none => "bad-op"
       | some ev =>
+        let pv : CodecPrims.PyVal := match ev with | .int z => .int z | .flt bs => .dbl bs | .str s => .str s
+        let gen := Generated.SigprocCodec.edit_header file key pv
         match Sigproc.editHeader file key ev with
-        | .ok f => s!"ok {hexOf f}"
-        | .error e => s!"err {e.name}"
+        | .ok f => s!"ok {hexOf f}" ++ genTag gen (fun g => g == f)
+        | .error e => s!"err {e.name}" ++ genTag gen (fun _ => false)
     | _, _ => "bad-op"
   | ["frame", f] =>
     let fr : Option Sigproc.Frame := if f == "topocentric" then some .topocentric
@@ -253,7 +278,9 @@ def stepC05 (ts : List String) : String :=
       let (p, b) := Sigproc.flagsOf fr
       let back := match Sigproc.frameOf p b with
         | .topocentric => "topocentric" | .barycentric => "barycentric" | .pulsarcentric => "pulsarcentric"
-      s!"ok {p} {b} {back}"
+      let gf := Generated.SigprocCodec.flagsOfFrame f
+      let gback := Generated.SigprocCodec.frameOfFlags gf.1 gf.2
+      s!"ok {p} {b} {back}" ++ (if gf == ((p : Int), (b : Int)) && gback == back then " | gen ok same" else " | gen ok diff")
   | ["ids", tel, mach] =>
     match unhex tel, unhex mach with
     | some t, some m =>
@@ -269,7 +296,9 @@ def stepC05 (ts : List String) : String :=
       if sd = 0 then "bad-op" else
       let v := Sigproc.packRadec (neg == "1") d m (mkRat sn sd)
       let (ng, d', m', s') := Sigproc.parseRadec v
-      s!"ok {showRat v} {if ng then 1 else 0} {d'} {m'} {showRat s'}"
+      let g := (Generated.SigprocCodec.parse_radec v v)
+      let same := g.2 == (ng, (d' : Int), (m' : Int), s') && (ng || g.1 == ((d' : Int), (m' : Int), s'))
+      s!"ok {showRat v} {if ng then 1 else 0} {d'} {m'} {showRat s'}" ++ (if same then " | gen ok same" else " | gen ok diff")
     | _, _, _, _ => "bad-op"
   | _ => "bad-op"
 
